@@ -136,3 +136,26 @@ class RyuPairIntrinsics(Intrinsics):
         def redirect(eng, st, fr, args, ins):
             eng.push_call(st, "strconv.ryuFtoaShortest", list(args), ins.get("r"))
             return None
+
+
+class RyuHelperIntrinsics(Intrinsics):
+    """R1f: calls to the harness's linkname stubs verifS_<name> run the lowered body of strconv.<name>"""
+
+    def lookup(self, name):
+        pre = PKG + ".verifS_"
+        if name.startswith(pre):
+            target = "strconv." + name[len(pre):]
+            self.used.add("redirect:" + target)
+
+            def h(eng, st, fr, args, ins, target=target):
+                eng.push_call(st, target, list(args), ins.get("r"))
+                return RedirectMarker
+            return h
+        return super().lookup(name)
+
+
+class _Redirect:
+    pass
+
+
+RedirectMarker = _Redirect()
